@@ -81,7 +81,7 @@ NoFile == [blocks |-> <<>>, blooms |-> <<>>, index |-> <<>>, indexDmg |-> FALSE,
 NoCor == [cls |-> "none"]
 \* sstable.Reader.NewIterator: index iterator on its first entry, no data block, not initialized
 Fresh == [init |-> FALSE, ib |-> 1, db |-> 0, i |-> 0, err |-> FALSE, g |-> FALSE]
-NoObs == [a |-> "none", t |-> 0, valid |-> FALSE, e |-> NoEnt, err |-> FALSE]
+NoObs == [a |-> "none", valid |-> FALSE, e |-> NoEnt, err |-> FALSE]
 
 -----------------------------------------------------------------------------
 (* Writer: sstable.Writer.AddWithSequence / flushBlock / Finish, block.Builder.Finish *)
@@ -89,33 +89,33 @@ NoObs == [a |-> "none", t |-> 0, valid |-> FALSE, e |-> NoEnt, err |-> FALSE]
 RestartsOf(m, R) == LET cnt == ((m - 1) \div R) + 1 IN [j \in 1..cnt |-> 1 + (j - 1) * R]
 BSize(ents) == Len(ents) + 1                 \* any positive size: offsets only have to be distinct and increasing
 
-WInit == [done |-> <<>>, cur |-> <<>>, next |-> 1, off |-> 0, index |-> <<>>, blooms |-> <<>>,
+WInit == [done |-> <<>>, blk |-> <<>>, next |-> 1, off |-> 0, index |-> <<>>, blooms |-> <<>>,
           bf |-> [off |-> 0, keys |-> {}]]
 
-CutDue == Len(w.cur) > 0 /\ Len(w.cur) = plan.lens[Len(w.done) + 1]
+CutDue == Len(w.blk) > 0 /\ Len(w.blk) = plan.lens[Len(w.done) + 1]
 
 \* AddWithSequence: remember the key in the current bloom filter, append to the block builder
 Add == /\ rd = "write" /\ w.next <= N(plan) /\ ~CutDue
-       /\ w' = [w EXCEPT !.cur = Append(@, Ent(plan, w.next)), !.next = @ + 1,
+       /\ w' = [w EXCEPT !.blk = Append(@, Ent(plan, w.next)), !.next = @ + 1,
                          !.bf = [@ EXCEPT !.keys = @ \cup {Key(w.next)}]]
        /\ UNCHANGED <<plan, file, cor, rd, cur, apos, ainit, obs>>
 
 \* flushBlock: serialize (restart point every R entries, checksum), index entry = first key -> offset,size;
 \* the filter just filled belongs to THIS block; the next filter is labelled with the offset behind it
-Flushed == LET sz == BSize(w.cur) IN
-           [w EXCEPT !.done = Append(@, [ents |-> w.cur, rst |-> RestartsOf(Len(w.cur), plan.R), off |-> w.off,
+Flushed == LET sz == BSize(w.blk) IN
+           [w EXCEPT !.done = Append(@, [ents |-> w.blk, rst |-> RestartsOf(Len(w.blk), plan.R), off |-> w.off,
                                          size |-> sz, dmg |-> "none", bad |-> 0]),
-                     !.index = Append(@, [first |-> w.cur[1].k, off |-> w.off, size |-> sz]),
+                     !.index = Append(@, [first |-> w.blk[1].k, off |-> w.off, size |-> sz]),
                      !.blooms = Append(@, w.bf),
                      !.bf = [off |-> w.off + sz, keys |-> {}],
                      !.off = @ + sz,
-                     !.cur = <<>>]
+                     !.blk = <<>>]
 CutBlock == /\ rd = "write" /\ CutDue
             /\ w' = Flushed
             /\ UNCHANGED <<plan, file, cor, rd, cur, apos, ainit, obs>>
 
 \* Finish: (the last block was cut by CutDue as well: Finish flushes whatever is pending), bloom section, index, footer
-Finish == /\ rd = "write" /\ w.next > N(plan) /\ w.cur = <<>>
+Finish == /\ rd = "write" /\ w.next > N(plan) /\ w.blk = <<>>
           /\ file' = [blocks |-> w.done, blooms |-> w.blooms, index |-> w.index,
                       indexDmg |-> FALSE, footDmg |-> FALSE, wild |-> FALSE]
           /\ rd' = "closed"
@@ -190,7 +190,7 @@ BlockAt(f, off) == IF \E b \in 1..Len(f.blocks) : f.blocks[b].off = off
 
 \* "ok": a block reader exists | "err": checksum / length error | "fab": unverified bytes are decoded as a block
 LoadRes(f, loc) ==
-  IF f.wild THEN "fab"
+  IF f.wild THEN (IF VerifiesBlocks THEN "err" ELSE "fab")     \* a bogus locator: the bytes there are no block
   ELSE LET b == BlockAt(f, loc.off) IN
        IF b = 0 \/ loc.size # f.blocks[b].size THEN (IF VerifiesBlocks THEN "err" ELSE "fab")
        ELSE LET d == f.blocks[b].dmg IN
@@ -290,8 +290,8 @@ CSeekToLast(f, c0) ==
   IF r = "ok" THEN Loaded(f, c, lx, BlockLast(Blk(f, lx))) ELSE LoadFail(c, lx, r)
 
 \* what the caller sees: Valid / Key,Value,IsTombstone,SequenceNumber / Error
-Obs(f, c, a, t) ==
-  [a |-> a, t |-> t,
+Obs(f, c, a) ==
+  [a |-> a,
    valid |-> c.g \/ (c.db # 0 /\ c.i # 0),
    e |-> IF c.g THEN Garbage ELSE IF c.db # 0 /\ c.i # 0 THEN f.blocks[c.db].ents[c.i] ELSE NoEnt,
    err |-> c.err]
@@ -333,19 +333,20 @@ GetImpl(f, k, fp) ==
 -----------------------------------------------------------------------------
 (* Cursor and lookup calls as actions; the ghost cursor follows the property *)
 
-Step(c2, a, t, ap) == /\ cur' = c2 /\ obs' = Obs(file, c2, a, t) /\ apos' = ap /\ ainit' = TRUE
+Step(c2, a, ap) == /\ cur' = c2 /\ obs' = Obs(file, c2, a) /\ apos' = ap /\ ainit' = TRUE
                       /\ UNCHANGED <<plan, w, file, cor, rd>>
 
-SeekToFirst == rd = "open" /\ Step(CSeekToFirst(file, cur), "first", 0, 1)
-SeekToLast  == rd = "open" /\ Step(CSeekToLast(file, cur), "last", 0, N(plan))
-Seek(t)     == rd = "open" /\ Step(CSeek(file, cur, t), "seek", t, LeastGE(plan, t))
-Next        == rd = "open" /\ Step(CNext(file, cur), "next", 0,
+SeekToFirst == rd = "open" /\ Step(CSeekToFirst(file, cur), "first", 1)
+SeekToLast  == rd = "open" /\ Step(CSeekToLast(file, cur), "last", N(plan))
+Seek(t)     == rd = "open" /\ Step(CSeek(file, cur, t), "seek", LeastGE(plan, t))
+Next        == rd = "open" /\ Step(CNext(file, cur), "next",
                                    IF ~ainit THEN 1 ELSE IF apos = 0 \/ apos = N(plan) THEN 0 ELSE apos + 1)
 NewIter     == rd = "open" /\ cur' = Fresh /\ apos' = 0 /\ ainit' = FALSE /\ obs' = [NoObs EXCEPT !.a = "newiter"]
                            /\ UNCHANGED <<plan, w, file, cor, rd>>
-Get(k, fp)  == /\ rd = "open"
+\* Get is a method of the Reader, not of a cursor: it neither reads nor moves one (explored next to a fresh cursor only)
+Get(k, fp)  == /\ rd = "open" /\ cur = Fresh
                /\ LET g == GetImpl(file, k, fp) IN
-                  obs' = [a |-> "get", t |-> k, valid |-> g.r = "found", e |-> g.e, err |-> g.r = "err"]
+                  obs' = [a |-> "get", valid |-> g.r = "found", e |-> g.e, err |-> g.r = "err"]
                /\ UNCHANGED <<plan, w, file, cor, rd, cur, apos, ainit>>
 
 Init == /\ plan \in Plans /\ w = WInit /\ file = NoFile /\ cor = NoCor /\ rd = "write"
@@ -361,9 +362,12 @@ Spec == Init /\ [][Next_]_vars
 (* Properties *)
 
 Intact == rd = "open" /\ cor = NoCor
+\* properties of the FILE (no cursor involved) are evaluated once per file, right after Open
+JustOpened == Intact /\ obs.a = "none" /\ cur = Fresh
 
 \* the writer: blocks as planned, index = first key of every block, ascending offsets
-FileAsPlanned == rd # "write" /\ cor = NoCor =>
+Finished == rd \in {"closed", "open", "failed"}
+FileAsPlanned == Finished /\ cor = NoCor =>
   /\ Len(file.blocks) = Len(plan.lens)
   /\ \A b \in 1..Len(file.blocks) : Len(file.blocks[b].ents) = plan.lens[b]
   /\ \A b \in 1..Len(file.blocks) : file.index[b] = [first |-> file.blocks[b].ents[1].k, off |-> file.blocks[b].off,
@@ -371,24 +375,24 @@ FileAsPlanned == rd # "write" /\ cor = NoCor =>
   /\ \A b \in 2..Len(file.blocks) : file.blocks[b].off > file.blocks[b - 1].off
 
 \* every key of a block is in the filter that Get will consult for that block
-BloomNoFalseNegative == rd # "write" /\ cor = NoCor =>
+BloomNoFalseNegative == Finished /\ cor = NoCor =>
   \A b \in 1..Len(file.blocks) : \A i \in 1..Len(file.blocks[b].ents) :
       LET x == FilterFor(file, file.index[b].off) IN x # 0 /\ file.blocks[b].ents[i].k \in file.blooms[x].keys
 
 SeekImpl(f, t) == FlatPos(f, CSeek(f, Fresh, t))
-SeekCorrect == Intact => \A t \in Targets(plan) : SeekImpl(file, t) = LeastGE(plan, t)
+SeekCorrect == JustOpened => \A t \in Targets(plan) : SeekImpl(file, t) = LeastGE(plan, t)
 
-GetCorrect == Intact => \A k \in Targets(plan) : \A fp \in BOOLEAN :
+GetCorrect == JustOpened => \A k \in Targets(plan) : \A fp \in BOOLEAN :
    LET g == GetImpl(file, k, fp) l == Lookup(plan, k) IN
    IF l = 0 THEN g.r = "notfound" ELSE g.r = "found" /\ g.e = Ent(plan, l)
 
 \* forward iteration of a fresh cursor: SeekToFirst, then Next until invalid
 RECURSIVE Collect(_, _, _)
 Collect(f, c, fuel) == IF fuel = 0 \/ FlatPos(f, c) = 0 THEN <<>>
-                       ELSE <<Obs(f, c, "it", 0).e>> \o Collect(f, CNext(f, c), fuel - 1)
+                       ELSE <<Obs(f, c, "it").e>> \o Collect(f, CNext(f, c), fuel - 1)
 IterAll(f) == Collect(f, CSeekToFirst(f, Fresh), N(plan) + 2)
-IterYieldsAllOnce == Intact => IterAll(file) = Flat(plan)
-LastCorrect == Intact => FlatPos(file, CSeekToLast(file, Fresh)) = N(plan)
+IterYieldsAllOnce == JustOpened => IterAll(file) = Flat(plan)
+LastCorrect == JustOpened => FlatPos(file, CSeekToLast(file, Fresh)) = N(plan)
 
 \* whatever calls were made on the cursor, it shows what the property says
 CursorRefines == Intact =>
